@@ -25,6 +25,7 @@ import (
 	"runtime"
 	"strings"
 	"sync/atomic"
+	"syscall"
 	"time"
 
 	"github.com/AdguardTeam/AdGuardDNS/internal/dnsserver"
@@ -67,7 +68,11 @@ func main() {
 		"request case = the real packReq on a buffer full of another exchange vs req.Pack(), a zeroed buffer and the model, for every " +
 		"buffer size of a range and every request length around it; retry case = first upstream tcp connection reset mid-reply, what the " +
 		"second receives; prefix case = real packWithPrefix on an array with residue vs own bytes and the model; loopback case = " +
-		"ServerDNS started on loopback sockets, udp bursts / tcp pipelines, every received response vs a fresh sequential instance; non-trivial = the pooled buffer held non-zero " +
+		"ServerDNS started on loopback sockets, udp bursts / tcp pipelines, every received response vs a fresh sequential instance; " +
+		"write-fault case = any message of a case may have failing response writes (EPERM / closed / deadline; all writes or only the first) on udp, tcp, doq, doh; " +
+		"1-3 messages of one client with failing writes, then a message of another client on every receive path with lengths around the responses that could not be sent; " +
+		"the model is driven with every response write (wr) and compared on the bytes written and on the length of the pooled slice the receive path reads into; " +
+		"fault-loopback case = started ServerDNS whose sockets fail the writes to one client, then other clients' udp/tcp messages, verdicts on positive events only; non-trivial = the pooled buffer held non-zero " +
 		"residue beyond the end of the next message and the next message is short/inconsistent (truncated, counts exceed " +
 		"content, pointer past its end), or more than one message was in flight; distinct = distinct case texts"
 	m := hlib.StartModel(o.Model, "C06")
@@ -81,7 +86,7 @@ func main() {
 		{"witnesses", h.witnesses}, {"boundary", h.boundaryCampaign}, {"random", h.randomCampaign},
 		{"truncation", h.exhaustiveTruncation}, {"burst", h.burstCampaign}, {"exchange", h.exchangeCampaign},
 		{"concurrent-exchange", h.concurrentExchangeCampaign}, {"request", h.requestCampaign}, {"retry", h.retryCampaign},
-		{"prefix", h.prefixCampaign}, {"loopback", h.loopbackCampaign}, {"oob", h.oobCampaign}, {"chain", h.chainCampaign},
+		{"prefix", h.prefixCampaign}, {"write-fault", h.writeFaultCampaign}, {"loopback", h.loopbackCampaign}, {"fault-loopback", h.faultLoopbackCampaign}, {"oob", h.oobCampaign}, {"chain", h.chainCampaign},
 	}
 	// C06_ONLY=<name>[,<name>] restricts a run to some campaigns (for
 	// experiments; ./check never sets it).
@@ -212,6 +217,10 @@ type bufSpy struct {
 	got    bool
 	before []byte
 	ref    []byte
+	// plen is len(p) of the slice the code under test handed to Read (before
+	// holds the whole capacity): the length of the pooled buffer as the receive
+	// path sees it.
+	plen int
 }
 
 func (s *bufSpy) see(p []byte) {
@@ -219,6 +228,7 @@ func (s *bufSpy) see(p []byte) {
 		return
 	}
 	s.got = true
+	s.plen = len(p)
 	s.ref = p[:cap(p)]
 	s.before = bytes.Clone(s.ref)
 }
@@ -235,6 +245,7 @@ type fakePacketConn struct {
 	wire  []byte
 	wrote [][]byte
 	raddr net.Addr
+	wf    writeFault
 }
 
 func (c *fakePacketConn) ReadFrom(p []byte) (int, net.Addr, error) {
@@ -248,6 +259,9 @@ func (c *fakePacketConn) ReadFrom(p []byte) (int, net.Addr, error) {
 
 func (c *fakePacketConn) WriteTo(p []byte, _ net.Addr) (int, error) {
 	c.wrote = append(c.wrote, bytes.Clone(p))
+	if err := c.wf.next("udp"); err != nil {
+		return 0, err
+	}
 
 	return len(p), nil
 }
@@ -277,6 +291,7 @@ type byteStream struct {
 	gate    chan struct{}
 	reached chan struct{}
 	gated   bool
+	wf      writeFault
 }
 
 func (c *byteStream) Read(p []byte) (int, error) {
@@ -311,6 +326,9 @@ func (c *byteStream) Read(p []byte) (int, error) {
 
 func (c *byteStream) Write(p []byte) (int, error) {
 	c.wrote = append(c.wrote, bytes.Clone(p))
+	if err := c.wf.next("tcp"); err != nil {
+		return 0, err
+	}
 
 	return len(p), nil
 }
@@ -358,6 +376,84 @@ func (c *fakeQUICConn) CloseWithError(code quic.ApplicationErrorCode, _ string) 
 	c.closedWith = append(c.closedWith, uint64(code))
 
 	return nil
+}
+
+// writeFault makes the response writes of a fake connection fail the way a
+// real socket does: kind "eperm" (sendmsg refused: firewall rule, unreachable
+// route), "closed" (the peer or the server closed the connection) or
+// "deadline" (the write deadline passed).  n > 0: only the first n writes fail
+// (the SERVFAIL the server tries after a handler error then goes through).
+type writeFault struct {
+	kind  string
+	n     int
+	calls int
+	fails int
+}
+
+func (w *writeFault) next(nw string) error {
+	w.calls++
+	if w.kind == "" || (w.n > 0 && w.calls > w.n) {
+		return nil
+	}
+	w.fails++
+	switch w.kind {
+	case "eperm":
+		return &net.OpError{Op: "write", Net: nw, Err: os.NewSyscallError("sendmsg", syscall.EPERM)}
+	case "closed":
+		return &net.OpError{Op: "write", Net: nw, Err: net.ErrClosed}
+	default:
+		return &net.OpError{Op: "write", Net: nw, Err: os.ErrDeadlineExceeded}
+	}
+}
+
+// note appends the number of failed writes to a response text (only when a
+// fault was asked for, so that fault-free texts stay what they were).
+func (w *writeFault) note(s string) string {
+	if w.kind == "" {
+		return s
+	}
+
+	return fmt.Sprintf("%s wfail=%d/%d", s, w.fails, w.calls)
+}
+
+// failsAt says whether the k-th write (from 1) fails.
+func (w *writeFault) failsAt(k int) bool { return w.kind != "" && (w.n <= 0 || k <= w.n) }
+
+// writeLines turns the attempted response writes of one message into model ops.
+func writeLines(path string, wf *writeFault, wrote [][]byte, res *opRes) {
+	for k, w := range wrote {
+		msg := w
+		if path != pUDP {
+			if len(w) < 2 {
+				continue
+			}
+			msg = w[2:]
+		}
+		f := 0
+		if wf.failsAt(k + 1) {
+			f = 1
+		}
+		res.wlines = append(res.wlines, fmt.Sprintf("wr %s - %s %d", path, hx(msg), f))
+		res.wrote = append(res.wrote, w)
+	}
+}
+
+func (op *opSpec) fault() writeFault { return writeFault{kind: op.WFail, n: op.WFailN} }
+
+var wfaultKinds = []string{"eperm", "closed", "deadline"}
+
+// failingHTTPWriter is an http.ResponseWriter whose body writes fail.
+type failingHTTPWriter struct {
+	*httptest.ResponseRecorder
+	wf *writeFault
+}
+
+func (w failingHTTPWriter) Write(p []byte) (int, error) {
+	if err := w.wf.next("tcp"); err != nil {
+		return 0, err
+	}
+
+	return w.ResponseRecorder.Write(p)
 }
 
 type timeoutErr struct{}
@@ -484,16 +580,24 @@ type opSpec struct {
 	Fail   bool   `json:"fail,omitempty"` // stream ends with a timeout instead of EOF
 	Req    string `json:"req,omitempty"`  // upstream: hex of the packed request
 	Pick   int    `json:"pick"`           // upstream: index into the harness-owned pool, -1 = new
+	// WFail != "": the response writes of this message fail (eperm | closed |
+	// deadline); WFailN > 0: only the first WFailN of them.
+	WFail  string `json:"wfail,omitempty"`
+	WFailN int    `json:"wfail_n,omitempty"`
 	wire   []byte
 	req    []byte
 	what   string
 }
 
 type opRes struct {
-	line     string
-	sawBuf   bool
-	bufLen   int
-	res48    string
+	line   string
+	sawBuf bool
+	bufLen int
+	res48  string
+	// wlines are the model ops of the response writes of this message (after
+	// line); wrote the bytes of each attempted write.
+	wlines   []string
+	wrote    [][]byte
 	decode   string
 	kind     string
 	resp     string
@@ -609,6 +713,10 @@ func (in *inst) poolBookkeeping(path string, spy *bufSpy, msgEnd int, res *opRes
 	}
 	res.sawBuf = true
 	res.bufLen = len(spy.before)
+	if path == pUDP || path == pDoQ {
+		// The length of the slice the receive path read into, not its capacity.
+		res.bufLen = spy.plen
+	}
 	res.res48 = hx(padTo(spy.before, 48)[:48])
 	if msgEnd < len(spy.before) && !allZero(spy.before[msgEnd:]) {
 		res.residue = true
@@ -655,7 +763,7 @@ func (in *inst) exec(op *opSpec) (res *opRes) {
 	}()
 	switch op.Path {
 	case pUDP:
-		c := &fakePacketConn{wire: op.wire}
+		c := &fakePacketConn{wire: op.wire, wf: op.fault()}
 		err := dnsserver.VerifC06AcceptUDPMsg(context.Background(), in.dnsSrv, c)
 		n := min(len(op.wire), in.sz.udp)
 		if err != nil {
@@ -670,12 +778,13 @@ func (in *inst) exec(op *opSpec) (res *opRes) {
 		if n < 12 {
 			res.kind = "short"
 		}
-		res.resp = respText(c.wrote, false, "")
+		res.resp = respText(c.wrote, false, c.wf.note(""))
+		writeLines(pUDP, &c.wf, c.wrote, res)
 		res.consumed = len(op.wire)
 		pick := in.poolBookkeeping(pUDP, &c.spy, n, res)
 		res.line = fmt.Sprintf("recv udp %s - %s", pick, hx(op.wire))
 	case pTCP:
-		bs := &byteStream{stream: op.wire, chunks: op.Chunks, skip: 2}
+		bs := &byteStream{stream: op.wire, chunks: op.Chunks, skip: 2, wf: op.fault()}
 		if op.Fail {
 			bs.failWith = timeoutErr{}
 		}
@@ -694,7 +803,8 @@ func (in *inst) exec(op *opSpec) (res *opRes) {
 		}
 		settle()
 		in.observe(res)
-		res.resp = respText(bs.wrote, true, fmt.Sprintf("closed=%v", bs.closed))
+		res.resp = respText(bs.wrote, true, bs.wf.note(fmt.Sprintf("closed=%v", bs.closed)))
+		writeLines(pTCP, &bs.wf, bs.wrote, res)
 		res.consumed = bs.off
 		msgEnd := 0
 		if len(op.wire) >= 2 {
@@ -710,7 +820,7 @@ func (in *inst) exec(op *opSpec) (res *opRes) {
 		}
 		res.line = fmt.Sprintf("recv tcp %s - %s", pick, hx(op.wire))
 	case pDoQ:
-		bs := &byteStream{stream: op.wire, chunks: op.Chunks}
+		bs := &byteStream{stream: op.wire, chunks: op.Chunks, wf: op.fault()}
 		if op.Fail {
 			bs.failWith = timeoutErr{}
 		}
@@ -733,7 +843,8 @@ func (in *inst) exec(op *opSpec) (res *opRes) {
 			if err != nil {
 				res.kind = doqKind(err)
 			}
-			res.resp = respText(bs.wrote, true, fmt.Sprintf("closed=%v conn=%v", bs.closed, qc.closedWith))
+			res.resp = respText(bs.wrote, true, bs.wf.note(fmt.Sprintf("closed=%v conn=%v", bs.closed, qc.closedWith)))
+			writeLines(pDoQ, &bs.wf, bs.wrote, res)
 		}
 		res.consumed = len(op.wire)
 		pick := in.poolBookkeeping(pDoQ, &bs.spy, n, res)
@@ -749,9 +860,10 @@ func (in *inst) exec(op *opSpec) (res *opRes) {
 		}
 		hr.RemoteAddr = "127.0.0.9:40000"
 		w := httptest.NewRecorder()
-		in.doh.ServeHTTP(w, hr)
+		wf := op.fault()
+		in.doh.ServeHTTP(failingHTTPWriter{w, &wf}, hr)
 		in.observe(res)
-		res.resp = fmt.Sprintf("%d %s", w.Code, canonResp(w.Body.Bytes(), false))
+		res.resp = wf.note(fmt.Sprintf("%d %s", w.Code, canonResp(w.Body.Bytes(), false)))
 		res.consumed = len(op.wire)
 		res.line = fmt.Sprintf("recv doh - - %s", hx(op.wire))
 	case pUpsUDP, pUpsTCP:
@@ -905,7 +1017,7 @@ func (cs *caseSpec) canon() string {
 	var sb strings.Builder
 	fmt.Fprintf(&sb, "%v", cs.Sizes)
 	for _, op := range append(append([]*opSpec{}, cs.History...), cs.Next) {
-		fmt.Fprintf(&sb, ";%s %s %s %s %d", op.Path, op.Mode, op.Wire, op.Req, op.Pick)
+		fmt.Fprintf(&sb, ";%s %s %s %s %d %s%d", op.Path, op.Mode, op.Wire, op.Req, op.Pick, op.WFail, op.WFailN)
 	}
 
 	return sb.String()
@@ -934,10 +1046,13 @@ func (h *harness) runCase(cs *caseSpec, record, report bool) (sigs []string) {
 	results := make([]*opRes, len(ops))
 	lines := []string{fmt.Sprintf("init %d %d %d %d %d", sz.udp, sz.tcp, doqSize,
 		forward.VerifC06BufSize(forward.NetworkUDP), forward.VerifC06BufSize(forward.NetworkTCP))}
+	lineAt := make([]int, len(ops))
 	for i, op := range ops {
 		op.fill()
 		results[i] = warm.exec(op)
+		lineAt[i] = len(lines)
 		lines = append(lines, results[i].line)
+		lines = append(lines, results[i].wlines...)
 	}
 	next, nres := cs.Next, results[len(ops)-1]
 
@@ -994,10 +1109,18 @@ func (h *harness) runCase(cs *caseSpec, record, report bool) (sigs []string) {
 		return sigs
 	}
 	h.m.ResetLog()
-	answers := h.m.Batch(lines)[1:]
+	answers := h.m.Batch(lines)
 	h.modelOps += len(lines)
 	for i, op := range ops {
-		h.compareModel(cs, i, op, results[i], answers[i], record)
+		h.compareModel(cs, i, op, results[i], answers[lineAt[i]], record)
+		for k, w := range results[i].wrote {
+			// <len of the writer's pooled slice> <bytes written> <put|drop>
+			f := strings.Fields(answers[lineAt[i]+1+k])
+			if len(f) != 3 || f[1] != hx(w) {
+				h.r.Disagree(op.Path+"-write-model", fmt.Sprintf("op %d %s: response write %d put %s on the wire; model (%s) answered %q",
+					i, op.Path, k+1, clipHex(w), results[i].wlines[k][:min(40, len(results[i].wlines[k]))], clip(answers[lineAt[i]+1+k])), cs)
+			}
+		}
 	}
 
 	if record {
@@ -1020,7 +1143,7 @@ func (h *harness) runCase(cs *caseSpec, record, report bool) (sigs []string) {
 		}
 		if nontrivial {
 			r.Sample(map[string]any{"path": next.Path, "class": cs.Class, "history": len(cs.History),
-				"next": clipHex(next.wire), "decode": clip(nres.decode), "model": clip(answers[len(ops)-1])}, 8)
+				"next": clipHex(next.wire), "decode": clip(nres.decode), "model": clip(answers[lineAt[len(ops)-1]])}, 8)
 		}
 	}
 
@@ -1103,9 +1226,9 @@ func (h *harness) compareModel(cs *caseSpec, i int, op *opSpec, res *opRes, ans 
 		if hx(padTo(mb, 48)) != res.res48 {
 			dis(fmt.Sprintf("pooled buffer held %s, model predicted %s", res.res48, mRes))
 		}
-		if op.Path != pTCP && mLen != fmt.Sprint(res.bufLen) {
-			dis(fmt.Sprintf("pooled buffer length %d, model %s", res.bufLen, mLen))
-		}
+	}
+	if res.sawBuf && op.Path != pTCP && mLen != fmt.Sprint(res.bufLen) {
+		dis(fmt.Sprintf("the receive path read into a pooled slice of length %d, model %s", res.bufLen, mLen))
 	}
 	if op.Path == pTCP && mCons != fmt.Sprint(res.consumed) {
 		dis(fmt.Sprintf("real code consumed %d stream bytes, model %s", res.consumed, mCons))
@@ -1354,6 +1477,16 @@ func (h *harness) genOp(rng *rand.Rand, path string, adversarial bool, poolLen i
 		op.Mode = []string{"read", "serve"}[rng.IntN(2)]
 	case pDoH:
 		op.Mode = []string{"post", "get"}[rng.IntN(2)]
+	}
+	// Response writes that fail (the client is gone, a firewall refuses the
+	// datagram, the write deadline passes): every fifth message of a history,
+	// fewer of the next messages.
+	switch path {
+	case pUDP, pTCP, pDoQ, pDoH:
+		if rng.IntN(5) == 0 && (!adversarial || rng.IntN(2) == 0) {
+			op.WFail = wfaultKinds[rng.IntN(len(wfaultKinds))]
+			op.WFailN = rng.IntN(2)
+		}
 	}
 
 	return op.fill()
@@ -2574,4 +2707,118 @@ func normErr(s string) string {
 	}
 
 	return s[:i] + e
+}
+
+// ---------------------------------------------------------------------------
+// Round 5: response writes that fail.
+//
+// The response writers re-slice their pooled buffer to the packed response and
+// give it back to their pool only when the write failed (DoQ: always), so a
+// failed write is the one event that moves a slice of an odd length into a
+// pool.  writeFaultCampaign makes the writes of 1-3 messages of one client fail
+// on each transport (EPERM, connection closed, deadline; all writes or only the
+// first, so that the SERVFAIL written after the handler's error goes through)
+// and then sends a message of ANOTHER client on each receive path, with lengths
+// around the lengths of the responses that could not be sent (one byte less,
+// equal, one more, much more) and the short/inconsistent classes.  Oracle and
+// model comparison are those of every case: warmed instance vs a brand-new one,
+// own bytes, and the length of the pooled slice the receive path reads into.
+
+// queryOfLen returns a well-formed query of exactly n bytes (n >= 19), for a
+// name that no other generator uses.
+func queryOfLen(n int, id uint16) []byte {
+	m := &dns.Msg{}
+	if n <= 81 {
+		m.SetQuestion(strings.Repeat("n", n-18)+".", dns.TypeA)
+	} else {
+		m.SetQuestion(strings.Repeat("n", 20)+".", dns.TypeA)
+		m.SetEdns0(1232, false)
+		opt := m.IsEdns0()
+		opt.Option = append(opt.Option, &dns.EDNS0_PADDING{Padding: make([]byte, n-(12+22+4+11+4))})
+	}
+	m.Id = id
+	b := mustPack(m)
+	if len(b) != n {
+		panic(fmt.Sprintf("queryOfLen(%d) made %d bytes", n, len(b)))
+	}
+
+	return b
+}
+
+func (h *harness) writeFaultCampaign() {
+	rng := h.o.Rand("write-fault")
+	failPaths := []string{pUDP, pTCP, pDoQ, pDoH}
+	nextPaths := []string{pUDP, pTCP, pDoQ, pDoH}
+	for _, sz := range [][2]int{{512, 512}, {64, 16}, {1232, 64}} {
+		for _, fp := range failPaths {
+			for _, kind := range wfaultKinds {
+				for _, failN := range []int{0, 1} {
+					if !h.o.Thorough() && rng.IntN(3) == 0 {
+						continue
+					}
+					// The client whose responses cannot be sent.
+					var hist []*opSpec
+					k := 1 + rng.IntN(3)
+					lens := map[int]bool{}
+					for j := 0; j < k; j++ {
+						q := queryOfLen(19+rng.IntN(30), uint16(rng.IntN(4)))
+						if rng.IntN(3) == 0 {
+							q = mustPack(genQuery(rng))
+						}
+						wire, _ := frame(rng, fp, q, 0)
+						mode := ""
+						switch fp {
+						case pDoQ:
+							mode = "serve"
+						case pDoH:
+							mode = []string{"post", "get"}[rng.IntN(2)]
+						}
+						op := (&opSpec{Path: fp, Mode: mode, wire: wire, Pick: -1, WFail: kind, WFailN: failN, what: "valid, response write fails"}).fill()
+						hist = append(hist, op)
+						// Lengths of the slices the failed writes leave behind.
+						dry := newInst(sizes{sz[0], sz[1]})
+						dres := dry.exec(op)
+						dry.close()
+						for _, w := range dres.wrote {
+							lens[len(w)] = true
+						}
+						if len(dres.wrote) > 0 {
+							h.r.Count("wfault.failed_write." + fp)
+						}
+					}
+					var targets []int
+					for l := range lens {
+						targets = append(targets, l-1, l, l+1, l+2, l+3)
+					}
+					targets = append(targets, 19, 60+rng.IntN(40), 200+rng.IntN(250))
+					for _, np := range nextPaths {
+						for _, t := range targets {
+							if t < 19 || (!h.o.Thorough() && rng.IntN(2) == 0) {
+								continue
+							}
+							msg, what := queryOfLen(t, uint16(rng.IntN(4))), "valid"
+							if rng.IntN(4) == 0 {
+								msg, what = mutate(rng, msg, 1+rng.IntN(7))
+							}
+							wire, note := frame(rng, np, msg, 0)
+							mode := ""
+							switch np {
+							case pDoQ:
+								mode = []string{"read", "serve"}[rng.IntN(2)]
+							case pDoH:
+								mode = []string{"post", "get"}[rng.IntN(2)]
+							}
+							next := (&opSpec{Path: np, Mode: mode, wire: wire, Pick: -1,
+								what: fmt.Sprintf("%s%s, %d bytes, after %d message(s) of another client whose %s response writes failed (%s)", what, note, len(msg), len(hist), fp, kind)}).fill()
+							if rng.IntN(6) == 0 {
+								next.WFail, next.WFailN = wfaultKinds[rng.IntN(len(wfaultKinds))], rng.IntN(2)
+							}
+							h.r.Count("wfault.next." + np)
+							h.checked(&caseSpec{Sizes: sz, History: append([]*opSpec{}, hist...), Next: next, Class: "after-failed-write"})
+						}
+					}
+				}
+			}
+		}
+	}
 }
